@@ -88,6 +88,8 @@ def conc(case):
 
 
 def kf_match(case):
+    if "cs" not in case:
+        return []
     """which known-finding predicate (if any) the concrete case falls under"""
     out = []
     cs, lens = case["cs"], case["lens"]
